@@ -414,4 +414,4 @@ where
 
 #[cfg(kani)]
 #[path = "/verif/hooks/core/szx.rs"]
-mod verif_hooks;
+pub(crate) mod verif_hooks;
